@@ -29,6 +29,7 @@ SCENARIOS = {
     10: "origin FIN first, client then keeps sending a little every 0.5 s for longer than the idle period, then FIN",
 }
 SCENARIOS[11] = "client RST while the origin stays open and silent: the proxy must end the tunnel on both sides by itself"
+SCENARIOS[13] = "upstream proxy sends its success reply and the origin's first bytes in one segment, more later, then FIN; the client reads to EOF, then uploads and closes"
 SCENARIOS[12] = "origin RST while the client stays open and silent: the proxy must end the tunnel on both sides by itself"
 IDLE = 3   # timeouts.idle of the proxies in this monitor: only a tunnel silent in BOTH directions for that long may be reaped
 
@@ -467,6 +468,120 @@ async def check_history(out, chain, io_name, expected):
         out.count("history_records_checked")
 
 
+async def upstream_speaks_first(out, args, rng):
+    from .lib import Proxy, base_cfg, free_port, http_connect, open_conn, socks5_connect, workdir
+    got_up = {}
+
+    cur_io = [None]
+
+    async def speak(r, w, reply, port):
+        key = key_of_port(port)
+        fkey = (cur_io[0], port)
+        n_banner, n_tail = key
+        banner, tail = keystream(args.seed, n_banner, "s2c", n_banner), keystream(args.seed, n_tail + 7, "s2c", n_tail)
+        w.write(reply + banner)          # ONE write: reply and banner share a segment
+        await w.drain()
+        await asyncio.sleep(0.25)
+        w.write(tail)
+        await w.drain()
+        w.write_eof()
+        up = b""
+        try:
+            while True:
+                b = await asyncio.wait_for(r.read(65536), 8 * WATCHDOG)
+                if not b:
+                    break
+                up += b
+            got_up[fkey] = (up, True)
+        except Exception:
+            got_up[fkey] = (up, False)
+        w.close()
+
+    def key_of_port(port):
+        k = (port - 1300) % 50
+        return (SIZES_B[k % len(SIZES_B)], SIZES_T[(k // len(SIZES_B)) % len(SIZES_T)])
+    SIZES_B, SIZES_T = [1, 320, 3000, 8191, 8192, 20000], [0, 1, 5000]
+
+    async def fake_http(r, w, o, info):
+        head = await r.readuntil(b"\r\n\r\n")
+        port = int(head.split(b" ")[1].rsplit(b":", 1)[1])
+        await speak(r, w, b"HTTP/1.1 200 Connection established\r\n\r\n", port)
+
+    async def fake_socks(r, w, o, info):
+        g = await r.readexactly(2)
+        await r.readexactly(g[1])
+        w.write(b"\x05\x00")
+        await w.drain()
+        h = await r.readexactly(4)
+        alen = {1: 4, 4: 16}.get(h[3]) or (await r.readexactly(1))[0]
+        rest = await r.readexactly(alen + 2)
+        await speak(r, w, b"\x05\x00\x00\x01\x00\x00\x00\x00\x00\x00", struct.unpack(">H", rest[-2:])[0])
+    hup = await TcpOrigin(fake_http, host="127.0.0.1").start()
+    sup = await TcpOrigin(fake_socks, host="127.0.0.1").start()
+    wd = workdir("c04-u")
+    try:
+        for io_name, io in (("splice", {"bufferSize": 65536, "useSplice": True}), ("buffered", {"bufferSize": 65536, "useSplice": False})):
+            P = {k: free_port() for k in ("http", "socks", "api")}
+            U = Proxy(args.bin, base_cfg([{"name": "http", "bind": "127.0.0.1:%d" % P["http"]}, {"name": "socks", "bind": "127.0.0.1:%d" % P["socks"]}],
+                                         [{"name": "hup", "type": "http", "server": "127.0.0.1", "port": hup.port}, {"name": "sup", "type": "socks", "server": "127.0.0.1", "port": sup.port}],
+                                         [{"filter": "request.target.port < 1400", "target": "hup"}, {"target": "sup"}], metrics_port=P["api"], io=io), "U-" + io_name, wd)
+            try:
+                await U.start()
+                cur_io[0] = io_name
+
+                async def one(lk, via, bi, ti):
+                    # the fake upstream files what it received under the port, which is unique per tunnel of this proxy
+                    port = (1300 if via == "hup" else 1400) + (50 if lk == "socks" else 0) + bi + len(SIZES_B) * ti
+                    key = key_of_port(port)
+                    out.case()
+                    who = "%s via %s io=%s" % (lk, via, io_name)
+                    c = await open_conn("127.0.0.1", P[lk])
+                    try:
+                        if lk == "http":
+                            st, _ = await http_connect(c, "127.0.0.1", port)
+                            ok = st == 200
+                        else:
+                            rep, _, _ = await socks5_connect(c, "127.0.0.1", port)
+                            ok = rep == 0
+                        if not ok:
+                            out.violation("tunnel through an upstream that speaks first could not be established: %s" % who, {"sizes": key})
+                            return
+                        want = keystream(args.seed, key[0], "s2c", key[0]) + keystream(args.seed, key[1] + 7, "s2c", key[1])
+                        try:
+                            got = await c.read_all(timeout=4 * WATCHDOG)
+                        except Exception as e:
+                            out.inconclusive += 1   # watchdog: no verdict
+                            return
+                        if got != want:
+                            out.violation("scenario 13: end-of-stream observed before every byte sent before it (bytes that arrived with the upstream's handshake reply): %s" % who,
+                                          {"banner": key[0], "tail": key[1], "received": len(got), "sent": len(want), "first_diff": next((i for i in range(min(len(got), len(want))) if got[i] != want[i]), None)})
+                        upload = keystream(args.seed, port, "c2s", 5000)
+                        c.write(upload)
+                        await c.drain()
+                        c.eof()
+                        for _ in range(int(4 * WATCHDOG / 0.05)):
+                            if (io_name, port) in got_up:
+                                break
+                            await asyncio.sleep(0.05)
+                        if (io_name, port) not in got_up:
+                            out.inconclusive += 1   # watchdog: no verdict
+                        elif got_up[(io_name, port)] != (upload, True):
+                            out.violation("scenario 13: the opposite direction did not keep flowing after the origin's end-of-stream: %s" % who, {"upstream_got": len(got_up[(io_name, port)][0]), "sent": len(upload), "eof": got_up[(io_name, port)][1]})
+                        out.nontrivial((lk, via, io_name, 13, key))
+                    finally:
+                        c.close()
+                jobs = [one(lk, via, bi, ti) for lk in ("http", "socks") for via in ("hup", "sup") for bi in range(len(SIZES_B)) for ti in range(len(SIZES_T))]
+                for i in range(0, len(jobs), 24):
+                    await asyncio.gather(*jobs[i:i + 24])
+                if not U.alive():
+                    out.violation("proxy process died during close scenarios", {"dead": ["U"]})
+            finally:
+                U.kill()
+    finally:
+        await hup.stop()
+        await sup.stop()
+
+
 async def main(args):
     from . import lib as _lib
     _lib.UNIQUE_SRC = True   # records are joined with connections by source port
@@ -554,6 +669,10 @@ async def main(args):
         if origins:
             await origins.stop()
         chain.cleanup(args.keep)
+    # ---- scenario 13: the upstream proxy's success reply and the first bytes of the origin travel in ONE segment (a server that
+    # speaks first), more follows later, then the origin half-closes; the client reads to EOF, then uploads and closes. Bytes that
+    # came in with the handshake sit in the proxy's handshake buffers: they are "sent before" the EOF like all others.
+    await upstream_speaks_first(out, args, rng)
     # differential: same scenario, same logical observations in both I/O modes
     diffs = 0
     for u, by in results.items():
